@@ -125,6 +125,10 @@ func runC05(c *core.Ctx) {
 		p := gen.Packet(cs.R, k, o)
 		c05Check(cs, p, "value")
 	})
+	// values whose encoding has 64 KiB or more (where 16-bit byte arithmetic wraps)
+	c.Section("big-values", c.N(400, 8000), func(cs *core.Case) {
+		c05Check(cs, gen.BigPacket(cs.R), "big")
+	})
 	// every residue mod 4 of every variable part, systematically
 	c.Section("residues", c.N(4000, 40000), func(cs *core.Case) {
 		r := cs.R
